@@ -143,6 +143,7 @@ func sortedKeys[V any](m map[string]V) []string {
 }
 
 func genExtra() {
+	genC19()
 	genC03()
 	genC12()
 	genC18()
